@@ -154,6 +154,13 @@ func genModelOnce(r *hx.Rand, o GenOpts) *Model {
 				for i := 0; i < nus; i++ {
 					t2 := hx.Pick(r, names)
 					rd.Restrs = append(rd.Restrs, Restr{Typ: t2, Rel: hx.Pick(r, relsOf[t2]), Cond: condOf()})
+					if r.Chance(1, 3) {
+						// a sibling restriction on the same type: other relation and/or other condition
+						rd.Restrs = append(rd.Restrs, Restr{Typ: t2, Rel: hx.Pick(r, relsOf[t2]), Cond: condOf()})
+					}
+				}
+				if r.Chance(1, 6) {
+					rd.Restrs = append(rd.Restrs, Restr{Typ: "user", Cond: condOf()}, Restr{Typ: "user", Wild: true, Cond: condOf()})
 				}
 				if len(rd.Restrs) == 0 {
 					rd.Restrs = append(rd.Restrs, Restr{Typ: "user"})
@@ -357,6 +364,15 @@ func GenTuple(r *hx.Rand, m *Model) (Tuple, bool) {
 		tu.User = x.Typ + ":" + hx.Pick(r, ids)
 	}
 	tu.Cond = x.Cond
+	// condition mismatches (a tuple written under a model version whose restriction carried another / no
+	// condition): exercises validateCondition on every shape of user
+	if len(m.Conds) > 0 && r.Chance(1, 6) {
+		if tu.Cond != "" && r.Chance(1, 2) {
+			tu.Cond = ""
+		} else {
+			tu.Cond = hx.Pick(r, m.Conds).Name
+		}
+	}
 	if tu.Cond != "" {
 		tu.Ctx = genCtx(r, m, tu.Cond)
 	}
